@@ -203,6 +203,18 @@ func runStreamCase(env *Env, c streamCase) {
 			got, ok := collect(source(batchesOf(c.Sizes, 0), c.Arrival).MakeISliceWorker(identityWorker, false, w).SortBatches(), false)
 			check(fmt.Sprintf("MakeISliceWorker(%d workers)+SortBatches", w), got, ok, want)
 		}
+	case "expand":
+		keep := keepPred(c.Keep)
+		dupWorker := func(s *obiseq.BioSequence) (obiseq.BioSequenceSlice, error) {
+			if keep(s) {
+				return obiseq.BioSequenceSlice{s, mkRec(recNum(s) + 1000)}, nil
+			}
+			return obiseq.BioSequenceSlice{s}, nil
+		}
+		for w := 1; w <= 3; w++ {
+			got, ok := collect(source(batchesOf(c.Sizes, 0), c.Arrival).MakeIWorker(dupWorker, false, w).SortBatches(), false)
+			check(fmt.Sprintf("MakeIWorker(1->2 worker, %d workers)+SortBatches", w), got, ok, want)
+		}
 	case "limitmemory":
 		got, ok := collect(source(in1, c.Arrival).LimitMemory(0.9), false)
 		sort.SliceStable(got, func(i, j int) bool { return got[i].O < got[j].O })
@@ -242,7 +254,11 @@ func runStreamCase(env *Env, c streamCase) {
 		got, ok := collect(source(in1, c.Arrival).CompleteFileIterator(), false)
 		check("CompleteFileIterator", got, ok, want)
 	case "concat":
-		s2 := source(batchesOf(c.Sizes2, 100), ident(len(c.Sizes2)))
+		rev2 := ident(len(c.Sizes2))
+		for i, j := 0, len(rev2)-1; i < j; i, j = i+1, j-1 { // the second stream arrives in reverse order
+			rev2[i], rev2[j] = rev2[j], rev2[i]
+		}
+		s2 := source(batchesOf(c.Sizes2, 100), rev2)
 		s3 := source(batchesOf(c.Sizes3, 200), ident(len(c.Sizes3)))
 		got, ok := collect(source(in1, c.Arrival).Concat(s2, s3), false)
 		sort.SliceStable(got, func(i, j int) bool { return got[i].O < got[j].O })
@@ -664,7 +680,7 @@ func recordC03(env *Env) {
 				}
 				return source(batchesOf(files[name], base[name]), arr), nil
 			}
-			it = obiformats.ReadSequencesBatchFromFiles([]string{"f1", "f2", "f3"}, reader, 1+e.W%3)
+			it = obiformats.ReadSequencesBatchFromFiles([]string{"f1", "f2", "f3"}, reader, 1+e.W%5) // 1..5 readers for 3 files
 		}
 		got, ok := collect(it, false)
 		e.Out = got
